@@ -3,7 +3,7 @@
 set -u
 D=/tmp/sens-$$
 git -C /repo worktree add -q --detach $D HEAD || exit 2
-git -C $D apply "$(realpath "$1")" || { git -C /repo worktree remove --force $D; exit 2; }
+{ git -C $D apply "$(realpath "$1")" 2>/dev/null || git -C $D apply -3 "$(realpath "$1")"; } || { git -C /repo worktree remove --force $D; exit 2; }
 shift
 for p in "$@"; do
   out=$(WENCRY_REPO=$D VERIF_WALL=${VERIF_WALL:-30} /verif/check $p --tier quick 2>/dev/null)
